@@ -7,6 +7,7 @@ import (
 	"math/big"
 	"strings"
 	"sync"
+	"unsafe"
 
 	"verif/harness/adapt/fields"
 	"verif/harness/gen"
@@ -205,6 +206,41 @@ func run[E any, P fields.Ptr[E]](c *mon.Ctx, f *fields.Field[E, P]) {
 		var z E
 		P(&z).Exp(els[len(els)-1], k)
 		c.Check("Exp", N+"/Exp/exponent-modified", k.Cmp(big.NewInt(-12345)) == 0, func() string { return "Exp modified its exponent: " + k.String() })
+	}
+	// ... not even temporarily: the exponent is an input, several goroutines may pass the same *big.Int
+	{
+		k := new(big.Int).Neg(big.NewInt(0x1234567))
+		nb := 8
+		if len(els) < nb {
+			nb = len(els)
+		}
+		want := make([]*big.Int, nb)
+		for i := range want {
+			want[i] = oexp(L.V[i], k, q)
+		}
+		var wg sync.WaitGroup
+		bad := make([]int, nb)
+		for g := 0; g < nb; g++ {
+			wg.Add(1)
+			go func(g int) {
+				defer wg.Done()
+				for rep := 0; rep < 60; rep++ {
+					var z E
+					P(&z).Exp(els[g], k)
+					if f.Value(&z).Cmp(want[g]) != 0 {
+						bad[g]++
+					}
+				}
+			}(g)
+		}
+		wg.Wait()
+		tot := 0
+		for _, b := range bad {
+			tot += b
+		}
+		c.Check("Exp", N+"/Exp/shared-exponent-concurrent-mismatch", tot == 0 && k.Cmp(big.NewInt(-0x1234567)) == 0, func() string {
+			return fmt.Sprintf("%d of %d Exp(x, k) calls sharing one negative exponent object between %d goroutines returned a wrong value; k afterwards = %s", tot, nb*60, nb, k)
+		})
 	}
 
 	// ---------- binary, all pairs ----------
@@ -464,7 +500,42 @@ func run[E any, P fields.Ptr[E]](c *mon.Ctx, f *fields.Field[E, P]) {
 			}
 		}
 	}
+	// very long vectors: the reducing operations accumulate lazily and reduce with precomputed constants (Barrett mu,
+	// accumulator width); an estimate that is slightly off only shows once enough terms are accumulated. Constant
+	// vectors make the expected value n*v (resp. n*v*w) with no oracle cost; one field at a time to bound memory.
+	bigVecMu.Lock()
+	defer bigVecMu.Unlock()
+	var zeroE E
+	nBig := 1_300_000
+	if int(unsafe.Sizeof(zeroE)) > 48 {
+		nBig = 400_000
+	}
+	if c.Thorough() {
+		nBig *= 4
+	}
+	for vi, v := range []*big.Int{new(big.Int).Sub(q, big.NewInt(1)), new(big.Int).Rsh(q, 1), e.rng.BigBelow(q)} {
+		el := f.FromValue(v)
+		a := make([]E, nBig)
+		for i := range a {
+			a[i] = el
+		}
+		desc := func(op string) func() string {
+			return func() string { return fmt.Sprintf("Vector.%s of %d copies of %s", op, nBig, v.Text(16)) }
+		}
+		var sum, ip E
+		if !c.Guard(fmt.Sprintf("%s/Vector.Sum/panic/n=%d", N, nBig), desc("Sum"), func() { sum = f.VecSum(a) }) {
+			w := new(big.Int).Mul(big.NewInt(int64(nBig)), v)
+			e.chk("Vector.Sum", "long-vector", &sum, mod(w, q), desc("Sum"))
+		}
+		if !c.Guard(fmt.Sprintf("%s/Vector.InnerProduct/panic/n=%d", N, nBig), desc("InnerProduct"), func() { ip = f.VecInnerProduct(a, a) }) {
+			w := new(big.Int).Mul(big.NewInt(int64(nBig)), new(big.Int).Mul(v, v))
+			e.chk("Vector.InnerProduct", "long-vector", &ip, mod(w, q), desc("InnerProduct"))
+		}
+		c.Class(fmt.Sprintf("%s/Vector.Sum/long/%d", N, vi))
+	}
 }
+
+var bigVecMu sync.Mutex
 
 func main() {
 	c := mon.Init("C01")
